@@ -298,7 +298,12 @@ def r6(rr, repo):
         seen.add(first.args[0])
         n += 1
         v = first.value
-        ok = isinstance(v, ast.Call) and U(v.func) == 'all' and 'self.outs_required' in U(v) and ' in ' in U(v)
+        ok = False
+        if isinstance(v, ast.Call) and U(v.func) == 'all' and len(v.args) == 1 and isinstance(v.args[0], (ast.GeneratorExp, ast.ListComp)) and len(v.args[0].generators) == 1:
+            g = v.args[0].generators[0]
+            c = v.args[0].elt
+            ok = U(g.iter) == 'self.outs_required' and not g.ifs and isinstance(c, ast.Compare) and len(c.ops) == 1 and isinstance(c.ops[0], ast.In) and U(c.left) == U(g.target) \
+                and 'client_id' in U(c.comparators[0]) and 'clients' in U(c.comparators[0])
         rr.ob('the permission to send is initialised from all(id in connected ids for id in self.outs_required)', ok, za.mod, first.node, witness=first.args[0][:200], key='outs-required')
     rr.floor('initialisations of do_send', n, 1, za.mod, za.S_poll)
 
